@@ -87,6 +87,8 @@ def _doc(g, r, ti, files, dirpath, depth_budget=2, allow_fail=True):
                               "!xref{{'hop': 1}} " + r.choice([kk for kk in keys if kk != k] or ['nowhere'])]))
         elif c == 17 and allow_fail:
             v = raw(r.choice([f'!call:simrec.raiser [t{ti}]', '!required', '!include missing_file.yaml',
+                              # a key that would shadow a method of the mapping node: refused while parsing
+                              '{items: 1, a: 2}', '{a: 1, keys: [1]}', '{update: x}',
                               f'!unsafe !call:simrec.f_t{ti}u []', '!xref nowhere.at.all',
                               # a safe call whose argument is unsafe: the error text lists the chain of dependencies being evaluated
                               f'!call:simrec.f_t{ti}w {{a: {{b: [1, !unsafe t{ti}_arg{uid}]}}}}',
@@ -147,6 +149,7 @@ FOCI = [['scalar_types'], ['default_filename', 'default_safe_flag', 'add_source'
 def _sched_spec(r):
     spec = _sched_spec0(r)
     spec['ext_p'] = r.choice([0, 0, 0.2, 0.6])     # extra pre-emption at simulated I/O / recorder / module-import points
+    spec['novel_p'] = r.choice([0, 0, 0.01, 0.05, 0.2])    # ... and at lines that run for the first time in the process (lazy initialisation)
     return spec
 
 
@@ -165,10 +168,42 @@ def _sched_spec0(r):
     return spec
 
 
+# (document every thread but one builds, the same document with one entry made invalid): the threads walk the same code
+# path, so the late one meets no line that is new to the process before it reaches the point where the early one was parked
+_COLD_PAIRS = [
+    ('first: {b: 1, a: 2}\nsecond: 1\n', 'first: {items: 1, a: 2}\nsecond: 1\n'),
+    ('first: 1\nsecond: {a: 2}\n', 'items: 1\nsecond: {a: 2}\n'),       # (the top-level mapping is the first one to be filled)
+    ('first: {x: 1}\n', 'keys: {x: 1}\n'),
+    ('first: !xref second\nsecond: 1\n', 'first: !xref nowhere\nsecond: 1\n'),
+    ('first: !call:simrec.f_cold {x: 1}\n', 'first: !call:simrec.raiser [cold]\n'),
+    ('first: [1, 2]\nsecond: {a: 1}\n', 'first: [1, 2\nsecond: {a: 1}\n'),
+    ('first: !weak 5\nsecond: 1\n', 'first: !required\nsecond: 1\n'),
+    ('first: !call:simrec.f_cold {x: 1}\n', 'first: !unsafe !call:simrec.f_cold {x: 1}\n'),
+    ('first: !include cold_inc.yaml\n', 'first: !include cold_missing.yaml\n'),
+]
+
+
+def _program_cold(r, ti, failing, pair):
+    """The first thing a thread ever does in a fresh process: one tiny document (for one of the threads a failing one, the
+    offending entry first). Lazily initialised process-wide state is being written while the other thread arrives."""
+    src = {'kind': 'text', 'safe': None, 'fault': 'cold_failing_input' if failing else None, 'text': pair[1] if failing else pair[0]}
+    return {'ti': ti, 'files': {f'{CWD}/cold_inc.yaml': '{x: 1}\n'}, 'ops': [{'sources': [src], 'eval': True, 'continue': False, 'api': 'builder'}]}
+
+
 def generate(r, tier, index):
     k = 2 if r.random() < 0.7 else 3
-    progs = [_program(r, ti, r.randrange(1, 4)) for ti in range(k)]
     n_s = TIERS[tier]['scheds']
+    if r.random() < 0.2:
+        # cold start: tiny first operations, pre-emption mostly at lines that run for the first time
+        bad = r.randrange(k)
+        pair = r.choice(_COLD_PAIRS)
+        progs = [_program_cold(r, ti, ti == bad, pair) for ti in range(k)]
+        scheds = []
+        for _ in range(n_s):
+            spec = {'policy': 'uniform', 'p': r.choice([0.0, 0.0, 0.001]), 'seed': r.getrandbits(32), 'focus': None, 'novel_p': r.choice([0.2, 0.35, 0.5])}
+            scheds.append(spec)
+        return {'programs': progs, 'scheds': scheds, 'warm': False, 'home': '/home/u', 'cold': True}
+    progs = [_program(r, ti, r.randrange(1, 4)) for ti in range(k)]
     return {'programs': progs, 'scheds': [_sched_spec(r) for _ in range(n_s)],
             'warm': r.random() < 0.25, 'home': '/home/u'}
 
